@@ -3,13 +3,13 @@ PROP = dict(
         tie_coq=["Properties/TieC06.v"],
         workloads=[
             dict(name="amm-pure", go_test="TestC06Pure", runner="C06",
-                 env=dict(quick=dict(VERIF_CASES=4000, VERIF_SMALL=4), thorough=dict(VERIF_CASES=60000, VERIF_SMALL=12))),
+                 env=dict(quick=dict(VERIF_CASES=3000, VERIF_SMALL=4), thorough=dict(VERIF_CASES=60000, VERIF_SMALL=12))),
             dict(name="amm-sequences", go_test="TestC06Seq", runner="C06",
-                 env=dict(quick=dict(VERIF_CASES=250), thorough=dict(VERIF_CASES=5000))),
+                 env=dict(quick=dict(VERIF_CASES=170), thorough=dict(VERIF_CASES=5000))),
             dict(name="amm-ranged", go_test="TestC06Ranged", runner="C06",
-                 env=dict(quick=dict(VERIF_CASES=70), thorough=dict(VERIF_CASES=1500))),
+                 env=dict(quick=dict(VERIF_CASES=45), thorough=dict(VERIF_CASES=1500))),
             dict(name="liquidity-keeper", go_test="TestC06Keeper", runner="C06-keeper",
-                 env=dict(quick=dict(VERIF_CASES=16), thorough=dict(VERIF_CASES=500))),
+                 env=dict(quick=dict(VERIF_CASES=14), thorough=dict(VERIF_CASES=500))),
         ],
         exhaustive_in=dict(thorough=True),
         rule="amm-pure: case = one call of the real amm.Deposit / amm.Withdraw / InitialPoolCoinSupply; first every (rx,ry,ps,x,y) in 0..S (ps=0 is the panic path) "
